@@ -85,6 +85,14 @@ def run(ctx):
         if done == 0:
             import demes
             batch = batch + [(d, demes.Graph.fromdict(d), None) for d in short_epoch_docs()]
+        # the same lookups on the generations view of graphs in other time units (a graph object that went
+        # through in_generations(), not one resolved afresh)
+        views = []
+        for doc, g, _ in batch[:40]:
+            if g.time_units != "generations":
+                v = g.in_generations()
+                views.append(({"in_generations_of": doc}, v, None))
+        batch = batch + views
         done += len(batch)
         reqs = []
         plist = []
@@ -105,6 +113,8 @@ def run(ctx):
                     ok = True
                     if x is None:
                         ok = False
+                    elif isinstance(v, float) and (math.isnan(v) or math.isinf(v)):
+                        ok = ("nan" in x) and math.isnan(v)
                     elif "exact" in x:
                         ref = dec(x["exact"])
                         ok = (Fraction(v) == ref) or math.isclose(v, float(ref), rel_tol=1e-12)
@@ -119,14 +129,17 @@ def run(ctx):
                         ctx.disagreement("size_at", {"document": doc, "deme": d.name, "t": show(canon(t))}, repr(v), x)
                     why = bounds_ok(d, t, v)
                     if why:
-                        ctx.violation("size_at: " + why,
-                                      {"document": doc, "deme": d.name, "t": show(canon(t))},
-                                      python=py_repro(doc, f"g[{d.name!r}].size_at({t!r})"))
+                        if "in_generations_of" in doc:
+                            rp = py_repro(doc["in_generations_of"], f"g.in_generations()[{d.name!r}].size_at({t!r})")
+                        else:
+                            rp = py_repro(doc, f"g[{d.name!r}].size_at({t!r})")
+                        ctx.violation("size_at: " + why, {"document": doc, "deme": d.name, "t": show(canon(t))}, python=rp)
 
 
 def replay(ctx, payload):
     import demes
     inp = payload["input"]
-    g = demes.Graph.fromdict(inp["document"])
+    doc = inp["document"]
+    g = demes.Graph.fromdict(doc["in_generations_of"]).in_generations() if "in_generations_of" in doc else demes.Graph.fromdict(doc)
     print("implementation:", g[inp["deme"]].size_at(float(Fraction(str(inp["t"])) if inp["t"] != "Infinity" else math.inf)))
     return 0
